@@ -132,7 +132,17 @@ func (x *Exec) ioNative(name string, fn *ssa.Function, args []Value) (Value, boo
 		}
 		x.event("command:%s", exe)
 		rt := fn.Signature.Results().At(0).Type().(*types.Pointer).Elem()
-		return Ptr{o: newObj(rt)}, true
+		co := newObj(rt).(*StructObj)
+		if ai == 1 {
+			// exec.CommandContext sets Cmd.Cancel (documented): model it as a non-nil function
+			st := rt.Underlying().(*types.Struct)
+			for i := 0; i < st.NumFields(); i++ {
+				if st.Field(i).Name() == "Cancel" {
+					store(co.f[i], &Closure{})
+				}
+			}
+		}
+		return Ptr{o: co}, true
 	case "(*os/exec.Cmd).Start":
 		x.event("start")
 		return Iface{}, true
